@@ -33,7 +33,7 @@ for d in sorted(glob.glob('/verif/seeded/C*-*')):
   det = '; '.join('%s -> %s' % (r['cmd'].replace('./check ', '').replace(' --tier quick', ''), ','.join(r['clauses']) or 'not detected')
                   for r in m.get('ran', []))
   rows.append('| %s-%s | %s | %s | %s | %s |' % (m['property'], m['label'], notes.replace('|', '/'), (m.get('needs_to_manifest') or 'see notes.md')[:200].replace('|', '/'),
-                                               'yes' if m['confirmed'] else 'demo only', det))
+                                               'obsolete after a fix (OBSOLETE.md)' if os.path.exists(os.path.join(d, 'OBSOLETE.md')) else ('yes' if m['confirmed'] else 'demo only'), det))
 with open('/verif/seeded/INDEX.md', 'w') as f:
   f.write('# Seeded changes written by independent sub-agents\n\n'
           'Each directory holds patch.diff (against /repo), demo.py (the agent\'s demonstration: exit 0 on the clean tree, non-zero with the patch),\n'
